@@ -646,12 +646,42 @@ fn c19(tier: Tier, seed: u64) -> Verdict {
         });
         merged.merge(m);
     }
+    // (4) long inputs: a multi-byte character or an invalid fragment straddling every power-of-two offset a
+    // block-wise validator could cut at (256 ... 64 Ki), as text, as bytes and as Unstructured seed
+    if merged.violation.is_none() {
+        let tails: [&[u8]; 6] = [b"\xf0\x9d\x84\x9e", b"\xe2\x82\xac", b"\xff", b"\xf0\x9d\x84", b"\xc3\xa9", b"\xed\xa0\x80"];
+        let mut m = Merged::new();
+        'l: for k in 8..=16u32 {
+            for back in 0..=4usize {
+                for tail in tails.iter() {
+                    let mut b: Vec<u8> = vec![b'x'; (1usize << k) - back];
+                    b.extend_from_slice(tail);
+                    b.extend_from_slice(&vec![b'y'; 40 + (1 << k) / 3]);
+                    m.evaluations += 3;
+                    let r = check_bytes(&b)
+                        .and_then(|_| check_feeds(&String::from_utf8_lossy(&b), &b))
+                        .map_err(|d| ("C19.deserialize_bytes", d))
+                        .and_then(|_| check_unstructured(&b).map_err(|d| ("C19.arbitrary", d)))
+                        .and_then(|_| match std::str::from_utf8(&b) {
+                            Ok(t) => check_text(t).map_err(|d| ("C19.serde_text", d)),
+                            Err(_) => Ok(()),
+                        });
+                    if let Err((clause, d)) = r {
+                        m.violation = Some(viol(json!({"kind": "serde_bytes", "hex": hex_encode(&b)}), clause, d));
+                        break 'l;
+                    }
+                    m.distinct.insert(digest(&(k, back, tail.len())));
+                }
+            }
+        }
+        merged.merge(m);
+    }
     finish(
         "C19",
         tier,
         seed,
         "exploration",
-        "serde: proptest texts (lengths around 16, multi-byte) and escape-heavy texts (quotes, backslashes, control characters, \\u escapes incl. lone surrogates) serialised through serde_json and a recording Serializer (exactly one serialize_str) incl. shared truncated handles and container structs, deserialised through serde_json::from_str / from_value and serde::de::value Str, BorrowedStr, String, Bytes, BorrowedBytes, U32 deserializers, differential against String and str::from_utf8; byte inputs: every sequence of length <= 4 (thorough 5) over the 21-symbol UTF-8 class alphabet, one in 11 also behind a 15-byte prefix; arbitrary: LeanString::arbitrary (4 consecutive draws, bytes left), arbitrary_take_rest and size_hint against <&str> on the same Unstructured seeds (random, class alphabet, length-marker-heavy), lengths 0..64; non-trivial = invalid UTF-8 or multi-byte input, texts needing escapes, every seed; distinct inputs",
+        "serde: proptest texts (lengths around 16, multi-byte) and escape-heavy texts (quotes, backslashes, control characters, \\u escapes incl. lone surrogates) serialised through serde_json and a recording Serializer (exactly one serialize_str) incl. shared truncated handles and container structs, deserialised through serde_json::from_str / from_value and serde::de::value Str, BorrowedStr, String, Bytes, BorrowedBytes, U32 deserializers, differential against String and str::from_utf8; byte inputs: every sequence of length <= 4 (thorough 5) over the 21-symbol UTF-8 class alphabet, one in 11 also behind a 15-byte prefix; arbitrary: LeanString::arbitrary (4 consecutive draws, bytes left), arbitrary_take_rest and size_hint against <&str> on the same Unstructured seeds (random, class alphabet, length-marker-heavy), lengths 0..64; long inputs (a multi-byte character or invalid fragment straddling every power-of-two offset 256 ... 64 Ki) as bytes, text and seed; non-trivial = invalid UTF-8 or multi-byte input, texts needing escapes, every seed; distinct inputs",
         &["64-bit target; lean_string built with features serde, arbitrary, verif-hooks", "oracle: String / &str implementations of serde 1.0 and arbitrary 1.4 on the same input"],
         &merged,
         t0.elapsed().as_secs_f64(),
